@@ -2358,6 +2358,18 @@ def h_numpy_getitem(n, stride, offset, kind, k):
                 return (kind_ != 'ERR'), 'view %s[%s]: out of range; native library %s %s' % (vw, vals, kind_, str(got)[:100]), payload
             if kind_ != 'OK' or got != exp:
                 return True, 'int64 buffer %s viewed as [%d::%d][:%d] = %s, indexed by %s: native library %s %s, NumPy gives %s' % (buf, offset, stride, n, vw, vals, kind_, str(got)[:120], exp), payload
+            # the slice belongs to the caller: used once more on an array of another length it selects by the same (unmodified) positions
+            second = [900 + i for i in range(n + 2)]
+            try:
+                exp2 = [second[v] for v in vals]
+            except IndexError:
+                exp2 = None
+            if exp2 is not None:
+                prog2 = mk + 'i64 %s getitem2 1 array %s' % (fullnative.ints(second), fullnative.ints(vals))
+                kind2, got2 = fullnative.akrun(prog2)
+                payload['second'] = dict(program=prog2, native=[kind2, got2], expected=exp2)
+                if kind2 != 'OK' or got2 != exp2:
+                    return True, 'the slice [%s] applied to the view %s and then again to %s: the second answer is %s %s instead of %s (the slice was modified by its first use)' % (vals, vw, second, kind2, str(got2)[:100], exp2), payload
             return False, 'native library agrees (%s)' % got, payload
         A, B = ev(a), ev(b)
         pyv = lambda v: None if v == KNONE else v
